@@ -239,6 +239,18 @@ theorem C20.composite_ops_preserve_invariants (s s' : State) (ops : List Op) (hi
     (h : run s ops = .ok s') : Inv s' ∧ Aligned s' :=
   ⟨FeatModel.Pool.inv_run hi h, aligned_run hal h⟩
 
+/-- special members of `SparseLayout`: move construction (`SparseLayout l2(std::move(l1))`, free target slot) and move
+    assignment (`l2 = std::move(l1)`) transfer the index-array pointers WITHOUT any counter change: the target holds
+    exactly the source's arrays, the source holds nothing afterwards (so the arrays are released exactly once, by the
+    target), and the only pool change is the release of what the target held before - none for a move construction.
+    Together with `inv_step` (which covers `lmove` and the std::vector / by-value-member round trip `lvec`): the
+    refcount invariant holds with two layout objects around, one reference per holder -/
+theorem C20.layout_move_transfers_ownership (s s' : State) (d src : Nat) (Ls : Layout)
+    (h : step s (.lmove d src) = .ok s') (hLs : s.lay src = some Ls) (hne : d ≠ src) :
+    s'.lay d = some Ls ∧ s'.lay src = some Ls.movedFrom ∧
+    releaseAll s.pool (layoutInds (s.lay d)) = .ok s'.pool ∧ (s.lay d = none → s'.pool = s.pool) :=
+  step_lmove_table h hLs hne
+
 /-- the history that leaked two chunks before /repo commit eef945341 (one layout object assigned twice, everything
     destroyed; former finding F-C20-1) now ends with an empty pool and a clean `finalize` -/
 example :
